@@ -1,7 +1,9 @@
 (* C06, step level: the predicates of Conn/C06_Pred.v as THEOREMS about every step of the model
    (every state satisfying a proved invariant, every event) and about every trace from vsock_new.
      c06_joint_ok        along every trace from vsock_new (valid configuration)     c06_joint_ok_trace
-     c06_cap_ok          under CAPc (an invariant), every step and trace            c06_cap_ok_step / _trace *)
+     c06_cap_ok          under CAPc (an invariant), every step and trace            c06_cap_ok_step / _trace
+     c06_backoff_ok      under ti /\ LB 0 (invariants), every step and trace        c06_backoff_ok_step / _trace
+     c06_emitted_live_ok FALSE as stated (restart after EMSGSIZE); every EMSGSIZE-free poll c06_emitted_live_ok_poll *)
 From Utp Require Conn.VSock_Inv.
 From Utp Require Import Base.Prelude Wire.SeqNr Wire.SeqNr_Proofs Wire.Header Rtt.Rtte Rtt.Rtte_Proofs
   Mtu.SegSizes Rx.Rx Tx.Ring Tx.Ring_Proofs Tx.Segments Tx.Segments_Proofs Tx.Segments_ProofsOut
@@ -9,7 +11,7 @@ From Utp Require Import Base.Prelude Wire.SeqNr Wire.SeqNr_Proofs Wire.Header Rt
   Conn.VSock_Lemmas Conn.VSock_LemmasStep Conn.VSock_LemmasReach Conn.VSock_LemmasTx
   Conn.VSock_LemmasIn Conn.VSock_LemmasTimers Conn.VSock_LemmasPipe Conn.C17_StepLemmas
   Conn.C10_Pred Conn.C05_Pred Conn.C06_Pred Conn.C0506_Pred2 Conn.C06_Pred2 Conn.C06_RecProofs
-  Conn.C06_StepLemmas Conn.C10_Proofs.
+  Conn.C06_StepLemmas Conn.C06_StepLemmas2 Conn.C10_Proofs.
 
 Section WithCC.
 Context {CC : Type} (cci : cc_iface CC).
@@ -300,6 +302,72 @@ Proof.
   - apply c06_emitted_live_ok_other.
   - apply c06_emitted_live_ok_poll.
   - eapply vsock_new_LB; eassumption.
+Qed.
+
+(* ================================================================== c06_backoff_ok *)
+Lemma filter_data_nodata : forall l, Forall nodata l -> filter fq_is_data (map fpacket_of l) = [].
+Proof.
+  induction l as [|p r IH]; intro H; [reflexivity|]. inversion H; subst. cbn [map filter].
+  unfold fq_is_data at 1, fpacket_of at 1. cbn [fq_hdr]. unfold nodata in H2.
+  destruct (ch_type (p_hdr p)); try (apply IH; assumption). contradiction.
+Qed.
+
+Lemma filter_data_one : forall p l1 l2,
+  Forall nodata l1 -> Forall nodata l2 -> ch_type (p_hdr p) = ST_DATA ->
+  filter fq_is_data (map fpacket_of (rev (l2 ++ p :: l1))) = [fpacket_of p].
+Proof.
+  intros p l1 l2 H1 H2 Hp. rewrite rev_app_distr. cbn [rev]. rewrite <- app_assoc. cbn [app].
+  rewrite map_app, filter_app.
+  rewrite (filter_data_nodata (rev l1)) by (apply Forall_rev; exact H1).
+  cbn [map filter app].
+  assert (Hd : fq_is_data (fpacket_of p) = true) by (unfold fq_is_data, fpacket_of; cbn [fq_hdr]; rewrite Hp; reflexivity).
+  rewrite Hd. rewrite (filter_data_nodata (rev l2)) by (apply Forall_rev; exact H2). reflexivity.
+Qed.
+
+Lemma RB_bounds : forall s : vsock, RB s ->
+  (RTTE_MIN_RTO <=? f_rto (fp_of_vsock cci s)) && (f_rto (fp_of_vsock cci s) <=? RTTE_MAX_RTO) = true.
+Proof.
+  intros s [H1 H2]. cbn [fp_of_vsock f_rto]. apply andb_true_intro. split; apply Z.leb_le; assumption.
+Qed.
+
+Theorem c06_backoff_ok_step : forall cfg (s : vsock) o,
+  ti s -> LB 0 s -> c06_backoff_ok cfg (fstep_of cci s o) = true.
+Proof.
+  intros cfg s o Hti HL. unfold c06_backoff_ok.
+  pose proof (ti_vstep cci s o Hti) as Hti'.
+  rewrite fstep_of_post, (RB_bounds _ (proj1 Hti')). cbn [andb]. clear Hti'.
+  destruct o as [t|m|sc|m| |buf| | |n| |]; try (rewrite fstep_of_event; reflexivity).
+  destruct (poll cci (VSockRec.set_sends s sc)) as [s' r] eqn:E.
+  rewrite (fstep_of_poll cci s sc s' r E). cbn [fs_event fs_result fs_pre fs_post fs_now].
+  destruct r; try reflexivity.
+  destruct (vstep_poll cci s sc s' _ E) as [V1 _]. rewrite V1.
+  assert (HL0 : LB 0 (VSockRec.set_sends s sc)) by (eapply LB_kp; [exact HL|]; unfold kp; auto).
+  pose proof (poll_LB cci _ HL0) as HL'. rewrite E in HL'. cbn [fst] in HL'.
+  assert (Hti0 : ti (VSockRec.set_sends s sc)) by exact Hti.
+  pose proof (poll_backoff cci (v_rto_retransmissions s) (v_rtte s) _ _ Hti0 eq_refl eq_refl E) as (T & N & M).
+  match goal with |- (if ?c then _ else _) = true => destruct c eqn:G end; [|reflexivity].
+  apply andb_true_iff in G. destruct G as [G1 G2]. apply Z.eqb_eq in G1. cbn [fp_of_vsock f_rto_retx] in G1.
+  destruct M as [(p & l1 & l2 & j & g & A1 & A2 & A3 & A4 & A5 & A6 & A7 & A8 & A9)|M]; [|exfalso; lia].
+  rewrite A1, (filter_data_one p l1 l2 A2 A3 A4).
+  unfold fpacket_of. cbn [fq_hdr]. rewrite A6.
+  rewrite (fseg_of_seq_table s' j g (proj1 HL') G2 A5).
+  unfold fseg_of at 1. cbn [fg_probe]. cbn [fp_of_vsock f_rto f_t_retransmit]. rewrite A8.
+  unfold NW in N. rewrite N, Z.eqb_refl, andb_true_r.
+  destruct (sg_probe g).
+  - rewrite A7. apply Z.eqb_refl.
+  - unfold c06_backoff_core. apply Z.eqb_eq.
+    rewrite (timeout_doubles_rto _ _ (proj1 Hti) A7). reflexivity.
+Qed.
+
+Theorem c06_backoff_ok_trace : forall cfg mk c (s0 : vsock) ops,
+  vconfig_ok c = true -> vsock_new cci mk c = Some s0 ->
+  forallb (c06_backoff_ok cfg) (ftrace cci s0 ops) = true.
+Proof.
+  intros cfg mk c s0 ops Hc H0.
+  apply (ftrace_forallb cci (fun s => ti s /\ LB 0 s)).
+  - intros s o [H1 H2]. apply c06_backoff_ok_step; assumption.
+  - intros s o [H1 H2]. split; [apply ti_vstep; exact H1 | apply (vstep_LB cci s o H2)].
+  - split; [eapply ti_vsock_new; exact H0 | eapply vsock_new_LB; eassumption].
 Qed.
 
 End WithCC.
